@@ -172,4 +172,43 @@ theorem reuss_rot (c s s' : M6 K) (hc : Symm6 c)
   · rw [shearReuss_eq_tr _ (rot_minor T hSm) (rot_major T hSM), tr1_rot T h, tr2_rot T h,
       ← shearReuss_eq_tr _ hSm hSM, hrt]
 
+/-! ### the two pictures of Hooke's law -/
+
+/-- Hooke's law in both pictures: `σ_ij = Σ_kl C_ijkl ε_kl` is `σ_a = Σ_b c_ab ε̂_b` with the engineering strains
+    `ε̂_b = mult(b)·ε_b` (symmetric `ε`). -/
+theorem hooke_voigt_aux (c : M6 K) (e : M33 K) (he : ∀ i j, e i j = e j i) (i j : Fin 3) :
+    (sum3 fun k => sum3 fun l => cijklGet c i j k l * e k l)
+      = ∑ b : Fin 6, c (voigt i j) b * ((mult b : K) * e (pairOf b).1 (pairOf b).2) := by
+  simp only [sum3_eq, cijklGet_eq]
+  have hF : ∀ k l : Fin 3, c (voigt i j) (voigt k l) * e k l
+      = (fun b : Fin 6 => c (voigt i j) b * e (pairOf b).1 (pairOf b).2) (voigt k l) := by
+    intro k l
+    show _ = c _ _ * e _ _
+    rcases pairOf_voigt k l with h | h <;> rw [h]
+    exact congrArg _ (he k l)
+  rw [Finset.sum_congr rfl fun k _ => Finset.sum_congr rfl fun l _ => hF k l,
+    sum_pairs (fun b : Fin 6 => c (voigt i j) b * e (pairOf b).1 (pairOf b).2)]
+  exact Finset.sum_congr rfl fun b _ => by ring
+
+/-- the inverse law: `ε_ij = Σ_kl S_ijkl σ_kl` is `ε̂_a = Σ_b s_ab σ_b` (symmetric `σ`); this is what the
+    `/2`, `/4` (getter) and `2.`, `4.` (setter) weights are for. -/
+theorem hooke_inverse_voigt_aux (s : M6 K) (σ : M33 K) (hσ : ∀ i j, σ i j = σ j i) (i j : Fin 3) :
+    (mult (voigt i j) : K) * (sum3 fun k => sum3 fun l => sijklGet s i j k l * σ k l) =
+      ∑ b : Fin 6, s (voigt i j) b * σ (pairOf b).1 (pairOf b).2 := by
+  simp only [sum3_eq, sijklGet_eq]
+  have hF : ∀ k l : Fin 3, s (voigt i j) (voigt k l) / ((mult (voigt i j) * mult (voigt k l) : ℕ) : K) * σ k l
+      = (fun b : Fin 6 => s (voigt i j) b / ((mult (voigt i j) * mult b : ℕ) : K) * σ (pairOf b).1 (pairOf b).2)
+          (voigt k l) := by
+    intro k l
+    show _ = s _ _ / _ * σ _ _
+    rcases pairOf_voigt k l with h | h <;> rw [h]
+    exact congrArg _ (hσ k l)
+  rw [Finset.sum_congr rfl fun k _ => Finset.sum_congr rfl fun l _ => hF k l,
+    sum_pairs (fun b : Fin 6 => s (voigt i j) b / ((mult (voigt i j) * mult b : ℕ) : K) * σ (pairOf b).1 (pairOf b).2),
+    Finset.mul_sum]
+  refine Finset.sum_congr rfl fun b _ => ?_
+  have h1 := mult_ne_zero (K := K) b
+  have h2 := mult_ne_zero (K := K) (voigt i j)
+  push_cast; field_simp
+
 end Atomman.C11
